@@ -27,6 +27,7 @@ EXPLANATION = (
     " Second session: the acceptor's reply used for a context is looked up for that context in the same loop iteration on every path (typestate fresh / stale / foreign; try-except, .get and if-else spellings accepted); AE.associate() numbers every proposed context unconditionally with an odd ID affine and injective in its position (unique-ids)."
     " Fourth session: (private-contexts) borrowed from C10's config-copy; the requestor-side partition is evaluated like the acceptor's."
     ' Fifth round: the requestor side is evaluated on a two-context scenario whose outcome must not depend on the iteration order (iteration-independent); role helpers are followed.'
+    ' Sixth round: (requestor-view) the A_ASSOCIATE.user_information setter is evaluated: every supported item comes out as it went in, a (False, False) role reply included.'
 )
 
 B3 = (True, False, None)
